@@ -23,17 +23,19 @@ class _Inline(ast.NodeTransformer):
 
 
 def value_defs(func_node):
-    """single-assignment locals that stand for a *value*: a name bound to a freshly constructed object (``parser =
-    ParserBinary(parsable)``) names that object - its identity and state matter - and is left alone"""
+    """single-assignment locals that stand for a *value*: a name bound to the result of a constructor, method or helper call
+    (``parser = ParserBinary(parsable)``, ``parser = cls._make_parser(parsable)``) names an object whose identity and state
+    matter and is left alone; calls of pure builtins (len, divmod, ...) are values"""
     out = {}
     for k, v in single_defs(func_node).items():
-        if isinstance(v, ast.Call):
-            fn = v.func
-            last = fn.id if isinstance(fn, ast.Name) else (fn.attr if isinstance(fn, ast.Attribute) else '')
-            if last[:1].isupper():
-                continue
+        if isinstance(v, ast.Call) and not (isinstance(v.func, ast.Name) and v.func.id in PURE_FUNCTIONS):
+            continue        # the result of a constructor, method or helper call: an object with identity / state
         out[k] = v
     return out
+
+
+PURE_FUNCTIONS = {'len', 'int', 'bytes', 'bytearray', 'min', 'max', 'abs', 'divmod', 'sum', 'sorted', 'tuple', 'list', 'str', 'bool', 'ord', 'chr', 'range',
+                  'set', 'frozenset', 'dict', 'round', 'pow', 'any', 'all', 'repr', 'hex', 'reversed', 'enumerate', 'zip'}
 
 
 def inline_locals(expr, func_node, depth=4, defs=None):
